@@ -159,9 +159,6 @@ func (part Partition) Contains(d time.Time) bool {
 }
 
 func NewPartition(period Period, interval Interval, last int) Partition {
-	if period.Start.IsZero() {
-		panic("can't create partition with zero time")
-	}
 	var periods []Period
 	if interval == Once {
 		periods = append(periods, period)
